@@ -109,6 +109,7 @@ pub fn entries() -> &'static Vec<Entry> {
             entry::<RegionSut<Codec>>(),
             entry::<RegionSut<StrCodec>>(),
             entry::<RegionSut<PairsCodec>>(),
+            entry::<RegionSut<ColsUnitVec>>(),
             entry::<RegionSut<UserCodecReg>>(),
             entry::<RegionSut<StrUserCodec>>(),
             entry::<RegionSut<CollapseUserCodec>>(),
